@@ -198,15 +198,18 @@ def one_relational(rnd, acc, api):
                 if via_python:
                     g = {'kk': gk}
                     o = {'globals': g}
-                    bare_script.filter_data(copy.deepcopy(rows), expr, variables, o)
+                    r1 = bare_script.filter_data(copy.deepcopy(rows), expr, variables, o)
                     r2 = bare_script.filter_data(copy.deepcopy(rows), expr, None, o)
                     kk_after = g.get('kk')
                 else:
                     vs = ', objectNew(' + lit('kk') + ', ' + lit(variables['kk']) + ')'
-                    (r2, kk_after), _ = run_script(api, f'kk = {lit(gk)}\ndd = {T}\nr1 = dataFilter(dd, {lit(expr)}{vs})\nr2 = dataCalculatedField(arrayCopy(dd), \'zq\', \'1\', objectNew(\'kk\', 0))\n'
-                                                        f'return arrayNew(dataFilter(dd, {lit(expr)}), kk)')
+                    (r2, kk_after, r1), _ = run_script(api, f'kk = {lit(gk)}\ndd = {T}\nr1 = dataFilter(dd, {lit(expr)}{vs})\nr2 = dataCalculatedField(arrayCopy(dd), \'zq\', \'1\', objectNew(\'kk\', 0))\n'
+                                                            f'return arrayNew(dataFilter(dd, {lit(expr)}), kk, r1)')
                 acc.count('variables_history_checks')
-                if not veq(kk_after, gk):
+                # a variable of the call wins over a global of the same name (for that call only)
+                if not rows_eq([{k: v for k, v in row.items() if k != 'zq'} for row in r1] if isinstance(r1, list) else r1, exp):
+                    fail('variable-vs-global', f'{expr!r} with variables {variables!r} while the global kk is {gk!r}: got {r1!r:.300} expected {exp!r:.300}')
+                elif not veq(kk_after, gk):
                     fail('variables-leak', f'global kk is {kk_after!r} after a call with variables {variables!r}; it was {gk!r}')
                 elif not rows_eq([{k: v for k, v in row.items() if k != 'zq'} for row in r2] if isinstance(r2, list) else r2, exp2):
                     fail('variables-leak', f'{expr!r} without variables after a call with variables {variables!r} (global kk={gk!r}): got {r2!r:.300} expected {exp2!r:.300}')
@@ -460,7 +463,7 @@ def csv_cell(v):
     return s
 
 
-STR_POOL = ['abc', 'x y', 'a,b', 'say "hi"', '2024-02-30', '2024-13-01', '12abc', 'true-ish', 'é', 'a.0,', '1.2.3', 'nan', 'T', '2024-01-01T99:00:00Z', '']
+STR_POOL = ['True', 'FALSE', 'TRUE', 'False', 'Null', 'NULL', 'None', 'NaN', 'Infinity', '0x10', 'abc', 'x y', 'a,b', 'say "hi"', '2024-02-30', '2024-13-01', '12abc', 'true-ish', 'é', 'a.0,', '1.2.3', 'nan', 'T', '2024-01-01T99:00:00Z', '']
 
 
 def gen_typed_table(rnd):
